@@ -105,7 +105,9 @@ def gen_program(rng, length, mix):
         elif o == "append":
             prog.append(["append", s, s2])
         elif o == "join":
-            prog.append(["join", s, s2, rng.choice(["inner_join", "join", "full_join"])])
+            # every expectation (None = the method's default): the strongest one the keys allow selects other code paths
+            prog.append(["join", s, s2, rng.choice(["inner_join", "join", "full_join"]),
+                         rng.choice([None, "one_to_one", "many_to_one", "one_to_many", "many_to_many"])])
         elif o == "setv":
             val = rng.choice([["s", rng.choice(VALS)], ["l", rand_vals(rng, rng.randint(0, 3), floats=rng.random() < 0.2)],
                               ["s", rng.choice(VALS[:9])]])
@@ -114,6 +116,8 @@ def gen_program(rng, length, mix):
             prog.append(["sett", s, rng.choice([["cell", rng.randint(-1, 3), rng.randint(0, 3), rng.choice(VALS[:10])],
                                                 ["row", rng.randint(-1, 3), rand_vals(rng, rng.randint(1, 3))],
                                                 ["colslice", rng.randint(0, 3), rng.choice(VALS[:10])],
+                                                # t[:, col] = [values]: as many as the table has rows, or not (then it is refused)
+                                                ["colvals", rng.randint(0, 3), rand_vals(rng, rng.choice([1, 2, 3, 3, 4]))],
                                                 ["region", rng.choice(VALS[:9])]])])
         elif o == "setattr":
             prog.append(["setattr", s, rng.randint(0, 3), rng.choice([["slot", s2], ["lit", rand_vals(rng, n)], ["tup", rng.randint(0, 2)]])])
@@ -625,7 +629,11 @@ def _exec(w, pop, changed_ok):
                 k1, k2 = o._underlying[0], o2._underlying[0]
                 if k1._dtype is None or k2._dtype is None or k1._dtype.kind is not int or k2._dtype.kind is not int:
                     raise Skip()
-                r = getattr(o, pop[3])(o2, k1, k2, expect="many_to_many")
+                want = pop[4] if len(pop) > 4 else "many_to_many"
+                try:
+                    r = getattr(o, pop[3])(o2, k1, k2) if want is None else getattr(o, pop[3])(o2, k1, k2, expect=want)
+                except ValueError:                           # the keys do not meet the expectation: join without one
+                    r = getattr(o, pop[3])(o2, k1, k2, expect="many_to_many")
             elif kind == "transpose" and not isinstance(o, Table):
                 # v.T of a 1-D vector: the same cells shown the other way round - a derived vector like a copy
                 r = o.T
@@ -1046,6 +1054,13 @@ def _do_sett(w, t, spec, changed_ok):
         key = (slice(None), ci)
         writes = [(ci, [(i, spec[2]) for i in range(n)])]
         val = spec[2]
+    elif k == "colvals":
+        ci = spec[1] % len(cols)
+        key = (slice(None), ci) if len(spec[2]) % 2 else (slice(None), cols[ci]._name if isinstance(cols[ci]._name, str) and
+                                                           [c._name for c in cols].count(cols[ci]._name) == 1 and
+                                                           cols[ci]._name.isidentifier() else ci)
+        writes = [(ci, [(i, v) for i, v in enumerate(spec[2])])] if len(spec[2]) == n else None
+        val = list(spec[2])
     else:
         key = (slice(0, 2), slice(None))
         writes = [(ci, [(i, spec[1]) for i in range(min(2, n))]) for ci in range(len(cols))]
